@@ -17,7 +17,8 @@
 (*   StopReturn  the call returned; what every output had been handed by then *)
 (*               (Pipeline: StopWait reaching "stopped") -> NoAcceptedLoss    *)
 (*   StopHung    the call is parked for ever (StopCompletes violated)         *)
-(*   StopPanicked the call panicked in the caller's goroutine                 *)
+(*   StopPanicked the call panicked in the caller's goroutine (no action:     *)
+(*               always rejected)                                             *)
 (*   Census      goroutines of the task still alive after the stop           *)
 (*               (AllGoroutinesExit) mapped onto Pipeline's process states    *)
 (* The property checks are conjuncts of the actions, so an execution that     *)
@@ -90,17 +91,9 @@ TrNodeFailed ==
     /\ failed' = TRUE
     /\ UNCHANGED <<topo, kind, Internal, pc, wb, hq, rd, mclosed, sp, accepted, delivered, refused, cfg, census, dev>>
 
-\* A node that fails although nothing was injected failed BECAUSE of the stop: not an excuse for a loss
-\* (`failed` stays FALSE).  The only listed case:
-\* KNOWN FINDING udf-stop-aborts: ExecutingTask.stop calls stopUDF = udf.Abort before it waits for the
-\* node; the UDF node drops what is in flight, returns "stopping UDF server: node aborted" and aborts its
-\* parent edges (Pipeline: StopUdfAbort; model-level counterexample Pipeline_udf.cfg).
+\* A node that fails although nothing was injected failed BECAUSE of the stop: there is no action for
+\* that (a graceful stop must not make nodes fail), the line is rejected.
 HasKind(k) == \E n \in Nodes : NK(n) = k
-TrNodeFailedByStopUDF ==
-    /\ IsEv("NodeFailed") /\ ~Ln.injected
-    /\ HasKind("udf") /\ sp.at = "wait"
-    /\ dev' = dev \cup {"udf-stop-aborts"}
-    /\ UNCHANGED <<vars, cfg, census>>
 
 TrStopCall ==
     /\ IsEv("StopCall")
@@ -111,13 +104,6 @@ TrStopCall ==
 OutName(n) == CHOOSE o \in DOMAIN cfg.topo.outs : cfg.topo.outs[o] = n
 IsOut(n) == \E o \in DOMAIN cfg.topo.outs : cfg.topo.outs[o] = n
 
-\* nodes reachable from n (n included)
-RECURSIVE ReachFrom(_, _)
-ReachFrom(S, k) == IF k = 0 THEN S
-                   ELSE ReachFrom(S \cup {topo.edges[e].to : e \in {x \in EIdx : topo.edges[x].from \in S}}, k - 1)
-BelowUdf == ReachFrom({n \in Nodes : NK(n) = "udf"}, Len(topo.kinds))
-Lossy(o) == ~(Expected(o) \subseteq SeqSet(delivered[o]))
-
 \* the stop call returned: what each output had been handed at that moment.  C07 safety.
 TrStopReturn ==
     /\ IsEv("StopReturn")
@@ -127,20 +113,7 @@ TrStopReturn ==
     /\ refused' = Ln.refused
     /\ UNCHANGED <<topo, kind, Internal, pc, wb, hq, rd, mclosed, accepted, failed, cfg, census, dev>>
     /\ NothingInvented'
-    /\ \/ NoAcceptedLoss'
-       \/ /\ "udf-stop-aborts" \in dev                 \* only outputs behind the aborted UDF may have lost points
-          /\ \A o \in Outputs : Lossy(o)' => o \in BelowUdf
-          /\ PrintT(<<"KF-HIT", "udf-stop-aborts">>)
-
-\* KNOWN FINDING udf-stop-before-open-panics: a stop requested before the UDF node goroutine has opened
-\* its UDF calls Abort on a nil *udf.Server: nil pointer panic in the goroutine that called StopTask.
-TrStopPanickedUDF ==
-    /\ IsEv("StopPanicked")
-    /\ sp.at = "wait" /\ HasKind("udf")
-    /\ cfg.stallKind = "run" /\ \E n \in Nodes : NK(n) = "udf" /\ cfg.topo.nodes[n] = cfg.stallNode
-    /\ PrintT(<<"KF-HIT", "udf-stop-before-open-panics">>)
-    /\ sp' = [at |-> "hung", i |-> 0]
-    /\ UNCHANGED <<topo, kind, Internal, pc, wb, hq, rd, mclosed, accepted, delivered, refused, failed, cfg, census, dev>>
+    /\ NoAcceptedLoss'
 
 \* KNOWN FINDING loopback-stop-deadlock: StopTask/DeleteTask of a task whose kapacitorLoopback node
 \* still has more points to write back than the TaskMaster's ingest edge can hold never returns
@@ -154,7 +127,8 @@ TrStopHungLoopback ==
     /\ cfg.n > cfg.cap
     /\ PrintT(<<"KF-HIT", "loopback-stop-deadlock">>)
     /\ sp' = [at |-> "hung", i |-> 0]
-    /\ UNCHANGED <<topo, kind, Internal, pc, wb, hq, rd, mclosed, accepted, delivered, refused, failed, cfg, census, dev>>
+    /\ dev' = dev \cup {"loopback-stop-deadlock"}
+    /\ UNCHANGED <<topo, kind, Internal, pc, wb, hq, rd, mclosed, accepted, delivered, refused, failed, cfg, census>>
 
 \* goroutines of the task that are still alive (parked, motionless) after the stop returned, mapped
 \* onto the model's processes; AllGoroutinesExit = none.
@@ -189,12 +163,11 @@ TrEnd ==
     /\ sp.at \in {"stopped", "hung"}
     /\ UNCHANGED <<vars, cfg, census, dev>>
 
-TrNext == TrReset \/ TrAccept \/ TrNodeFailed \/ TrNodeFailedByStopUDF \/ TrStopCall \/ TrStopReturn
-          \/ TrStopHungLoopback \/ TrStopPanickedUDF \/ TrCensus \/ TrEnd
+TrNext == TrReset \/ TrAccept \/ TrNodeFailed \/ TrStopCall \/ TrStopReturn \/ TrStopHungLoopback \/ TrCensus \/ TrEnd
 TrSpec == TrInit /\ [][TrNext]_tvars
 
 QuietAfterCensus == census = "done" => AllDone
-TrNoLoss == NoAcceptedLoss \/ "udf-stop-aborts" \in dev
+TrNoLoss == NoAcceptedLoss
 HW == HWMark(l)
 Accepted == HWAccepted
 =============================================================================
